@@ -401,6 +401,12 @@ def check(ctx):
     check_independence(ctx)
     check_transparency(ctx)
     check_exporters(ctx)
+    # "identical whether the genome is passed ... gzip-compressed": the compression / parsing clauses of C06, re-evaluated
+    from . import c06
+    rep.rule('F4', "C06-F4 re-evaluated: content-based compression detection at every CLI site; gzip stream handling")
+    rep.rule('F5', 'C06-F5 re-evaluated: parse() stream handling')
+    c06.check_compression(ctx)
+    c06.check_parse(ctx)
 
 
 from ..variants import V  # noqa: E402
@@ -424,6 +430,8 @@ VARIANTS = [
     V('labels keep the directory', 'B', _C, "\t\tid = os.path.basename(id)\n", "\t\tid = os.path.normpath(id)\n", 'A2'),
     V('list-file base directory ignored', 'B', _C, "paths = [Path(listfile_dir) / line for line in lines]", "paths = [Path(line) for line in lines]", 'A1'),
     V('csv rows sorted by label', 'B', 'src/gambit/results.py', "\t\t\tfor item in results.items:", "\t\t\tfor item in sorted(results.items, key=lambda it: it.input.label):", 'A8'),
+    V('gzip read through one-shot zlib.decompress (first member only; seeded C08a)', 'B', 'src/gambit/util/io.py', "binary = gzip.GzipFile(fileobj=file, mode='rb')",
+      "binary = BytesIO(zlib.decompress(file.read(), zlib.MAX_WBITS | 16))", 'F4'),
     V('E: explicit comprehension instead of map', 'E', _C, "\t\tpaths_str = list(map(str, paths))\n", "\t\tpaths_str = [str(p) for p in paths]\n"),
     V('E: dmat[i] row form', 'E', _Q, "dmat[i, :], input) for i, input in enumerate(inputs_iter)]", "dmat[i], input) for i, input in enumerate(inputs_iter)]"),
 ]
